@@ -32,5 +32,5 @@ fn main() {
     let failed_commits: Vec<(usize, String, Vec<(Vec<u8>, Option<(u32, u32)>)>)> =
         out.failed_commits.iter().map(|(at, e, ws)| (*at, e.clone(), ws.iter().map(|(k, op)| (k.clone(), op.value().map(|v| (v.len, v.tag)))).collect())).collect();
     let model_commits = if std::env::var("WL_C10").is_ok() { serde_json::to_value(&out.model.commits).unwrap_or_default() } else { serde_json::Value::Null };
-    println!("{}", serde_json::json!({"failure": f, "commits": commits, "model_commits": model_commits, "failed_writes": failed, "failed_commits": failed_commits, "n_failed": out.stats.get("failed_commits")}));
+    println!("{}", serde_json::json!({"failure": f, "commits": commits, "model_commits": model_commits, "final_clock": out.final_clock, "failed_writes": failed, "failed_commits": failed_commits, "n_failed": out.stats.get("failed_commits")}));
 }
